@@ -133,9 +133,13 @@ pub fn run_history(o: &Opts, _cfg: &GenCfg, prog: &Prog, hist: &[Step], case_see
     let mut runner = Runner::new(prog, true);
     runner
         .ctx
+        .retain_refs
+        .store(o.retain, std::sync::atomic::Ordering::Relaxed);
+    runner
+        .ctx
         .step_bound
         .store(4 * 200 * (prog.nodes.len() as u64 + 2).pow(2), std::sync::atomic::Ordering::Relaxed);
-    let do_fresh = case_seed % 8 == 0;
+    let do_fresh = case_seed % 8 == 0 && !o.retain;
     for (si, step) in hist.iter().enumerate() {
         match step {
             Step::Req(req) => {
@@ -223,6 +227,11 @@ pub fn run_history(o: &Opts, _cfg: &GenCfg, prog: &Prog, hist: &[Step], case_see
                 }
             }
         }
+    }
+    if o.retain {
+        let n = runner.ctx.retained.lock().unwrap().len() as u64;
+        rep.counts.add("retained_refs_checked", n + runner.retained_checked);
+        rep.violations.extend(runner.ctx.check_retained());
     }
     rep.violations.extend(runner.violations.drain(..));
     let log = runner.take_log();
@@ -432,7 +441,8 @@ fn is_monotone_now(prog: &Prog, inp: &refint::Inputs) -> bool {
 
 pub fn cyclic_case(o: &Opts, case_seed: u64) -> CaseReport {
     let mut rng = Rng::new(case_seed);
-    let cfg = cyc_cfg(&o.prop, &mut rng);
+    let mut cfg = cyc_cfg(&o.prop, &mut rng);
+    cfg.lru_fix = o.retain;
     let mut prog = gen_prog(&mut rng, &cfg);
     let mut hist = gen_history(&mut rng, &cfg, &prog);
     if o.sub == "demo12" {
@@ -458,6 +468,10 @@ pub fn cyclic_case(o: &Opts, case_seed: u64) -> CaseReport {
     rep.sample = format!("PROG {prog} HISTORY {}", fmt_history(&hist));
     rep.sig = hash_str(&rep.sample);
     let mut runner = Runner::new(&prog, true);
+    runner
+        .ctx
+        .retain_refs
+        .store(o.retain, std::sync::atomic::Ordering::Relaxed);
     let bound = 4 * 200 * (prog.nodes.len() as u64 + 2).pow(2);
     runner
         .ctx
@@ -548,6 +562,11 @@ pub fn cyclic_case(o: &Opts, case_seed: u64) -> CaseReport {
                 }
             }
         }
+    }
+    if o.retain {
+        let n = runner.ctx.retained.lock().unwrap().len() as u64;
+        rep.counts.add("retained_refs_checked", n + runner.retained_checked);
+        rep.violations.extend(runner.ctx.check_retained());
     }
     rep.violations.extend(runner.violations.drain(..));
     let log = runner.take_log();
